@@ -14,7 +14,7 @@
 From Coq Require Import PrimFloat.
 From Coq Require Import ZArith List Bool Reals Lra Permutation.
 From Coquelicot Require Import Coquelicot.
-From BZ Require Import Base.Ops Gen.Point Gen.Affine Gen.Line Gen.Quad Gen.Cubic Hand.Shoelace Proofs.C10 Proofs.C10pos Proofs.C10shapes Hand.Shapes.
+From BZ Require Import Base.Ops Gen.Point Gen.Affine Gen.Line Gen.Quad Gen.Cubic Hand.Shoelace Proofs.C10 Proofs.C10pos Proofs.C10shapes Hand.Shapes Gen.Shapes Proofs.Bridge.
 Import ListNotations.
 Open Scope R_scope.
 
@@ -171,6 +171,22 @@ Proof. exact Square_signed_area. Qed.
 Theorem C10_Ellipse_cubics_closed :
   forall (T : Type) (O : Ops T) (xr yr : T) (o : pt T) (s : T), closed_cubic_chain (Ellipse_cubics O xr yr o s).
 Proof. exact @Ellipse_cubics_closed. Qed.
+(* the hand models ARE the definitions regenerated from the source (Proofs/Bridge.v), for every scalar carrier *)
+Theorem C10_Rectangle_is_generated :
+  forall (T : Type) (O : Ops T) (w h : T) (o : option (pt T)), Rectangle_lines O w h (default_origin O o) = geometricshapes_Rectangle O w h o.
+Proof. exact @Rectangle_lines_opt_gen. Qed.
+Theorem C10_Square_is_generated :
+  forall (T : Type) (O : Ops T) (w : T) (o : option (pt T)), Square_lines_opt O w o = geometricshapes_Square O w o.
+Proof. exact @Square_lines_opt_gen. Qed.
+Theorem C10_Ellipse_is_generated :
+  forall (T : Type) (O : Ops T) (xr yr : T) (o : option (pt T)) (s : option T), Ellipse_cubics_opt O xr yr o s = geometricshapes_Ellipse O xr yr o (superness_or_default O s).
+Proof. exact @Ellipse_cubics_opt_gen. Qed.
+Theorem C10_Circle_is_generated :
+  forall (T : Type) (O : Ops T) (r : T) (o : option (pt T)) (s : option T), Circle_cubics_opt O r o s = geometricshapes_Circle O r o (superness_or_default O s).
+Proof. exact @Circle_cubics_opt_gen. Qed.
+Theorem C10_circular_superness_is_generated :
+  forall (T : Type) (O : Ops T), circular_superness O = geometricshapes_CIRCULAR_SUPERNESS O.
+Proof. exact @circular_superness_gen. Qed.
 
 Print Assumptions C10_area_is_integral_line.
 Print Assumptions C10_area_is_integral_quad.
@@ -223,3 +239,8 @@ Print Assumptions C10_Ellipse_control_polygon_area.
 Print Assumptions C10_Ellipse_control_polygon_star_cw.
 Print Assumptions C10_Square_signed_area.
 Print Assumptions C10_Ellipse_cubics_closed.
+Print Assumptions C10_Rectangle_is_generated.
+Print Assumptions C10_Square_is_generated.
+Print Assumptions C10_Ellipse_is_generated.
+Print Assumptions C10_Circle_is_generated.
+Print Assumptions C10_circular_superness_is_generated.
